@@ -15,19 +15,19 @@ SPEC = {
     "technique": "Lean 4 invariant proofs (DFS stack/open-chain invariant, post-order closure, stack-depth bound) over "
                  "an executable transcription + regenerated facts + exhaustive differential correspondence",
     "trusted": [
-        "go/ast extractor harness/extract/c06 (guard chain, pre/post set roles, iterated method, closing test, extension, top-level loop of Check)",
+        "go/ast extractor harness/extract/c06 (guard chain, pre/post set roles, iterated method, closing test, extension, top-level loop of Check; whether each set is a fresh local of Check or persists in the detector; collection-typed fields of cycleDetector; fields Check assigns to)",
         "correspondence harness/cmd/c06 vs Driver/C06.lean: exact returned cycle on all 66 067 digraphs with self-loops on <= 4 targets "
         "(thorough: + all 2^20 loop-free digraphs on 5), random graphs up to 40 targets with random numbering, graphs resolved by the real "
         "ResolveDependencies with provide/require",
-        "hook /repo/src/core/c06_verif.go (constructs cycleDetector{graph} and calls Check; resolveDependency wrapper)",
+        "hooks /repo/src/core/c06_verif.go (constructs cycleDetector{graph} and calls Check; resolveDependency wrapper) and c06seq_verif.go (ONE detector kept across a sequence of Check() calls, as BuildState keeps one per build)",
         "modelled, not verified: Model/Cycle.lean transcribes visit/Check; Go maps as membership lists, pointers as naturals",
         "direct oracle: independent Tarjan SCC in the harness",
     ],
     "assumptions": [
-        "the detector is not stopped (cycleDetector.stopped == false) and the graph is not mutated while Check runs",
+        "the detector is not stopped (cycleDetector.stopped == false) and the graph is not mutated WHILE a Check runs (between two checks it may grow: that is modelled)",
         "the graph contains every resolved dependency of its targets (WF): BuildGraph only resolves to targets it holds",
     ],
-    "explanation": "C06_sound, C06_reported_simple (no target listed twice), C06_complete, C06_acyclic_not_reported, C06_iff, C06_fuel, C06_reported_listed, C06_any_order "
+    "explanation": "C06_seq_stateless / C06_seq_sound / C06_seq_complete (every call of every sequence of checks on one detector is sound and complete for the graph of THAT call), C06_sound, C06_reported_simple (no target listed twice), C06_complete, C06_acyclic_not_reported, C06_iff, C06_fuel, C06_reported_listed, C06_any_order "
                    "quantify over all graphs and orders; FactsOK ties them to the shape of visit read from the source on this run.",
 }
 
@@ -47,4 +47,10 @@ Dry-runs on scratch copies of /repo (VERIF_REPO=/var/tmp/mC06 ./check C06 quick)
  H1 harmless: guard order swapped (partial before complete), locals renamed (dep/cycle/done/present), operands of the
       closing comparison swapped, the two post-loop statements reordered               -> exit 0, facts regenerated.
  (a mutant `if target == cycle[…]` without `done` does not compile: `done` unused.)
+ S1 seeded change /tmp/seedout/C06/patch.diff: `complete` becomes a lazily initialised field of cycleDetector reused by later Check()
+      calls. A single Check() is unchanged, so the per-graph ops agree; the sequence ops (one detector, graph growing edge by edge)
+      expose it: VERIF_REPO=<copy> ./check C06 quick -> exit 1, VIOLATION violation-cycle-missed with the failing sequence
+      `seq 0,1/0:1;1:- 0,1/0:1;1:0` ("call 2 on one detector: the graph resolved so far has a cycle but Check returned nil"), 54 oracle
+      failures; facts persistPost=true / detectorCollectionFields=[complete] / checkWritesFields=[complete] break C06_facts_ok, and the
+      model (runSeq with the regenerated Persist) follows the mutant: 0 disagreements.
 """
